@@ -81,3 +81,19 @@ Theorem hooks_write_prescribed_rows :
   /\ writers "PINIT" BEFORE = [] /\ writers "PINIT" AFTER = [].
 Proof. vm_compute. repeat split; reflexivity. Qed.
 Print Assumptions hooks_write_prescribed_rows.
+
+(* C03: the hooks that compute the pressure lift.  The compressor lift  p_from_abs * ratio - p_from_abs  is not clamped
+   (no maximum / minimum / where / clip / abs call: a ratio below 1 lowers the pressure, the only exception in the source
+   is the reverse-flow mask); the pump's volume flow takes its density from get_branch_real_density (liquids: the
+   density res_pump.vdot_m3_per_s is reported with) and fluid.get_density (gases: norm density) and from nowhere else *)
+Definition calls_of (cls : string) : list string :=
+  map snd (filter (fun r => String.eqb (fst r) cls) lift_hook_calls).
+Definition is_in (l : list string) (x : string) : bool := existsb (String.eqb x) l.
+
+Theorem lift_hooks_sources :
+  filter (is_in ["maximum"; "minimum"; "where"; "clip"; "abs"; "fmax"; "fmin"; "max"; "min"]) (calls_of "Compressor") = []
+  /\ filter (is_in ["get_branch_real_density"; "get_density"; "get_branch_density"; "get_at_value"; "get_property"])
+            (calls_of "Pump") = ["get_branch_real_density"; "get_density"]
+  /\ is_in (calls_of "Pump") "get_pressure" = true.
+Proof. vm_compute. repeat split; reflexivity. Qed.
+Print Assumptions lift_hooks_sources.
